@@ -305,7 +305,14 @@ func build(sp Spec) (b built, fail *kindFailure) {
 			ok = pk
 			orig = prev
 			tk = kUnknown
-			if s.Kind >= 0 {
+			switch {
+			case s.Kind == kkRawCanceled:
+				target, tk = realCanceled, kCancelled
+			case s.Kind == kkRawDeadline:
+				target, tk = realDeadline, kTimeout
+			case s.Kind == kkWrappedRawCanceled:
+				target, tk = fmt.Errorf("operation aborted: %w", context.Canceled), kCancelled
+			case s.Kind >= 0:
 				target = kindTable[s.Kind].Err
 				tk = s.Kind
 			}
@@ -337,6 +344,28 @@ func build(sp Spec) (b built, fail *kindFailure) {
 				break
 			}
 			fIs, fAny = !is, !an
+		}
+		// the f-variant and its twin agree on the kind when given the same arguments
+		if got >= 0 {
+			twinFn := strings.TrimSuffix(s.Fn, "f")
+			if !isFormatFn(s.Fn) {
+				twinFn = s.Fn + "f"
+			}
+			if twinFn != "Error" && twinFn != "Errorff" {
+				var twin error
+				if isFormatFn(twinFn) {
+					twin = call(twinFn, target, orig, string(s.Msg), 1)
+				} else {
+					twin = call(twinFn, target, orig, string(s.Msg), 0)
+				}
+				if tis, tany := recognised(twin, got); !(tis && tany) {
+					txt := ""
+					if twin != nil {
+						txt = clip(twin.Error())
+					}
+					return b, &kindFailure{step: i, fn: twinFn, role: s.Role + "(twin of " + s.Fn + ")", other: s.Other, accept: []int{got}, ctx: ctx, viaIs: !tis, viaAny: !tany, text: txt}
+				}
+			}
 		}
 		if got < 0 {
 			txt := ""
